@@ -17,6 +17,60 @@ def find {β : Type} (reg : List (β × List Nat)) (k : Nat) : Option β :=
 /-- every alias of the registry, in list order -/
 def allKeys {β : Type} (reg : List (β × List Nat)) : List Nat := reg.flatMap (·.2)
 
+/-! ## string level: what the constructor stores, `__eq__` with a string, `find` over the stored strings
+
+`σ` is the type of strings and `norm` is `str.lower` (the driver instantiates `σ := String`, `norm := String.toLower`); nothing below
+depends on what `norm` does, the theorems of `Props/C20/Normalise.lean` need at most `norm (norm x) = norm x`. -/
+
+section Strings
+variable {σ : Type} [DecidableEq σ]
+
+/-- `Adsorbate.__init__`, the statements that fill `self.alias`:
+`alias=None` -> `[name.lower()]`; a single string counts as a one-element list; every alias is lower-cased; the lower-cased name is
+appended when it is not already there.  (`alias : Option (List σ)`: `none` = no `alias` keyword, `some [a]` = a string or a list of one.) -/
+def ctorAlias (norm : σ → σ) (name : σ) (al : Option (List σ)) : List σ :=
+  match al with
+  | none => [norm name]
+  | some as =>
+    let l := as.map norm
+    if l.contains (norm name) then l else l ++ [norm name]
+
+/-- the same constructor with the normalisation left out for the aliases selected by `keep` ("kept as written"); `keep = fun _ => false`
+is `ctorAlias`.  Only used to state why the normalisation at construction is needed. -/
+def ctorAliasKeeping (keep : σ → Bool) (norm : σ → σ) (name : σ) (al : Option (List σ)) : List σ :=
+  match al with
+  | none => [norm name]
+  | some as =>
+    let l := as.map (fun a => if keep a then a else norm a)
+    if l.contains (norm name) then l else l ++ [norm name]
+
+/-- `Adsorbate.__eq__(self, other: str)`: `other.lower() in self.alias` -/
+def eqStr (norm : σ → σ) (stored : List σ) (q : σ) : Bool := stored.contains (norm q)
+
+/-- `Adsorbate.find(q)`: `next(ads for ads in ADSORBATE_LIST if ads == q)`, over (payload, stored alias list) -/
+def findS {β : Type} (norm : σ → σ) (reg : List (β × List σ)) (q : σ) : Option β :=
+  (reg.find? (fun e => eqStr norm e.2 q)).map (·.1)
+
+/-- how many entries of the registry a string designates (`[a for a in ADSORBATE_LIST if a == q]`) -/
+def designated {β : Type} (norm : σ → σ) (reg : List (β × List σ)) (q : σ) : List β :=
+  (reg.filter (fun e => eqStr norm e.2 q)).map (·.1)
+
+/-- every stored alias string of the registry, in list order -/
+def allAliases {β : Type} (reg : List (β × List σ)) : List σ := reg.flatMap (·.2)
+
+/-- the registry made by constructing one adsorbate per written entry (name, `alias` argument), in order:
+the JSON source list through `Adsorbate(**entry)`, a database through `adsorbates_from_db`, user-made adsorbates with `store=True` -/
+def build (norm : σ → σ) (entries : List (σ × Option (List σ))) : List (σ × List σ) :=
+  entries.map fun e => (e.1, ctorAlias norm e.1 e.2)
+
+def buildKeeping (keep : σ → Bool) (norm : σ → σ) (entries : List (σ × Option (List σ))) : List (σ × List σ) :=
+  entries.map fun e => (e.1, ctorAliasKeeping keep norm e.1 e.2)
+
+/-- the strings an entry is written with: its name and the elements of its `alias` argument -/
+def written (e : σ × Option (List σ)) : List σ := e.1 :: (e.2.getD [])
+
+end Strings
+
 -- `Err` and `propValue` (the fallback pattern of the accessors) live in `Model/Fallback.lean`, same namespace
 
 end PgVerif.Model.Registry
